@@ -58,8 +58,12 @@ class C14:
                 k = rng.randint(0, 3)
                 ops.append(['infer', c, k])
                 made += k
-            elif r < 0.68:
+            elif r < 0.66:
                 ops.append(['clear'])
+            elif r < 0.70:
+                # ONE symbolic block: a no-domain query is evaluated in it, then - still inside the block - a class is constructed
+                ops.append(['query_in_block', c])
+                ops.append(['symbolic_in_block', rng.randrange(ncls), rng.choice(['plain', 'kw'])])
             elif r < 0.8:
                 ops.append(['qtake', c, rng.randint(0, 2), rng.choice(['an', 'an', 'the']), rng.random() < 0.5])
             else:
@@ -76,6 +80,7 @@ class C14:
         for op in case['ops']:
             k = op[0]
             o.append({'concrete': lambda: f"OConcrete {op[1]}", 'symbolic': lambda: f"OSymbolic {op[1]}",
+                      'query_in_block': lambda: f"OQuery {op[1]}", 'symbolic_in_block': lambda: f"OSymbolic {op[1]}",
                       'infer': lambda: f"OInfer {op[1]} {op[2]}", 'clear': lambda: "OClear", 'query': lambda: f"OQuery {op[1]}",
                       'qtake': lambda: f"OQueryTake {op[1]} {2 if op[3] == 'the' else op[2]}"}[k]())
         return f"Eval vm_compute in (run_rcase {n} {ct} [{'; '.join(o)}])."
@@ -153,7 +158,7 @@ class C14:
                 made += 1
             elif op[0] == 'infer':
                 made += op[2]
-            elif op[0] in ('query',):
+            elif op[0] in ('query', 'query_in_block'):
                 k = len([x for x in o[1:o.index(']')].split(',') if x])
                 if 0 < k < made:
                     return True
